@@ -560,3 +560,8 @@ def ret_canons_plain(fa) -> List[str]:
         return [sym.canon(r.value) for r in returns_in(fa) if r.value is not None]
     finally:
         sym.inliner = old
+
+
+def final_states(fw) -> list:
+    """States in which the evaluated function can finish normally: every `return` plus falling off the end."""
+    return [st for r, v, st in fw.returns] + ([fw.st] if fw.st.alive else [])
